@@ -734,6 +734,8 @@ class C08(core.Check):
                     f"c08.thetalen {core.rat(th)} {_vec(case['p1'])} {_vec(case['p2'])} {_vec(case['axis'])} "
                     f"{core.rat(c)} {core.rat(s)} {eps}"
                 )
+                # ArcEdgeBase.length (valid -> three-point arc length, else chord) for the implementation's third point (round 6d)
+                reqs.append(f"c08.elen {_vec(case['p1'])} {_vec(case['p2'])} {_vec(impl['third'])}")
             return reqs
         if kind in ("origin", "origin_adj"):
             reqs = [
@@ -750,6 +752,7 @@ class C08(core.Check):
                     f"c08.vmid {fv(p1)} {fv(p2)} {fv(C)} {fv(nrm)} {fv(g)} {_vec(impl['third'])} {core.rat(EPS_VALID + Fraction(64 * EPS_DOUBLE * case.get("far", 0.0)))}"
                 )
                 reqs.append(f"c08.valid {_vec(case['p1'])} {_vec(case['p2'])} {_vec(impl['third'])}")
+                reqs.append(f"c08.elen {_vec(case['p1'])} {_vec(case['p2'])} {_vec(impl['third'])}")
             return reqs
         if kind in ("arc3", "arc3_beyond", "arc3_bad"):
             reqs = [f"c08.arc3 {_vec(case['p1'])} {_vec(case['pb'])} {_vec(case['p2'])}"]
@@ -763,6 +766,8 @@ class C08(core.Check):
                     f"c08.varc3 {_vec(case['p1'])} {_vec(case['pb'])} {_vec(case['p2'])} {core.rat(cth)} {core.rat(sth)} "
                     f"{core.rat(EPS_ANGLE)}"
                 )
+            if isinstance(impl.get("length"), float):
+                reqs.append(f"c08.elen {_vec(case['p1'])} {_vec(case['p2'])} {_vec(case['pb'])}")
             return reqs
         if kind in ("poly", "poly_bad"):
             return ["c08.poly " + ";".join(_vec(p) for p in case["points"]) + " " + eps]
@@ -822,6 +827,20 @@ class C08(core.Check):
                         found.append((a, b, m))
         return found
 
+    @staticmethod
+    def _cmp_elen(ans: str, impl: dict) -> Optional[str]:
+        """ArcEdgeBase.length / is_valid of the model (c08.elen) against the implementation"""
+        a = ans.split()
+        if a[0] != "ok":
+            return f"ArcEdgeBase.length: implementation {impl['length']}, model answers {ans[:60]}"
+        if (a[1] == "1") != bool(impl["valid"]):
+            return f"ArcEdgeBase.is_valid: implementation {impl['valid']}, model {a[1]}"
+        ml = _bits(a[2])
+        if not abs(ml - impl["length"]) <= TOL_LEN * max(1.0, ml):
+            which = "three-point arc" if a[1] == "1" else "chord (dropped arc)"
+            return f"ArcEdgeBase.length: implementation {impl['length']}, model {ml} ({which})"
+        return None
+
     def compare(self, case: dict, impl: Any, model: List[str]) -> Optional[str]:
         kind = case["kind"]
         if kind in ("arc_hist", "mesh_hist"):
@@ -852,13 +871,15 @@ class C08(core.Check):
                 return f"validator on the implementation's point: {model[1]}"
             if len(model) > 2 and model[2] in ("0", "1") and (model[2] == "1") != bool(impl["valid"]):
                 return f"ArcEdgeBase.is_valid: implementation {impl['valid']}, model {model[2]} (collinearity measure chord x rise vs TOL)"
-            if len(model) > 3 and impl.get("valid"):
+            if len(model) > 3 and kind == "theta" and impl.get("valid"):
                 a3 = model[3].split()
                 if a3[0] != "ok":
                     return f"model answers {model[3]} for the arc length"
                 ml = float(core.parse_rat(a3[1]))
                 if not abs(ml - impl["length"]) <= TOL_LEN * max(1.0, ml):
                     return f"AngleEdge.length: implementation {impl['length']}, model radius x angle {ml}"
+            if model[-1].startswith("ok ") and len(model[-1].split()) == 3 and len(model) in (4, 5) and "valid" in impl:
+                return self._cmp_elen(model[-1], impl)
             return None
         if kind in ("arc3", "arc3_beyond"):
             if ans[0] != "ok":
@@ -873,10 +894,16 @@ class C08(core.Check):
                     f"arc_length_3point: length/radius = {impl['direct']} / R is not the included angle on the side the "
                     f"code decided (validator: {model[1]})"
                 )
+            if len(model) > 2:
+                return self._cmp_elen(model[-1], impl)
             return None
         if kind == "arc3_bad":
             want = "reject" if impl["direct"] == "ValueError" else "ok"
-            return None if ans[0] == want else f"arc_length_3point guard: implementation {impl['direct']}, model {ans[0]}"
+            if ans[0] != want:
+                return f"arc_length_3point guard: implementation {impl['direct']}, model {ans[0]}"
+            if len(model) > 1:
+                return self._cmp_elen(model[-1], impl)
+            return None
         if kind == "poly_bad":
             if ("reject" in impl) != (ans[0] == "reject"):
                 return f"polyline_length guard: implementation {impl}, model {ans[0]}"
